@@ -794,3 +794,218 @@ def r15_8(ctx):
                     "a datagram whose first fragment is missing is judged complete / data behind a gap is handed to the reader", body=b, bb=bad[0][0])
         else:
             ctx.ok((fn, 'no-hole'), sample=dict(fn=fn, nonzero_answer_behind='!front.has_hole()'))
+
+
+@rule('R12.8', ['C12', 'C20', 'C03'], floor=1, clause='the reassembly time-out acts on occupied slots: in remove_expired the reset of a slot is reachable for a slot that is not free and whose deadline has passed (stale fragments cannot outlive the time-out and be merged into a later datagram)')
+def r12_8(ctx):
+    from .c12 import PAS, PA
+    F = ctx.F
+    b = ctx.method(PAS, 'remove_expired')
+    rs = F.method(PA, 'reset')
+    fr = F.method(PA, 'is_free')
+    ctx.need(rs is not None and fr is not None, "PacketAssembler::reset / is_free")
+    sites = [x[0] for x in b.calls() if b.callee_name(x[1]) == rs.key]
+    ctx.need(sites, "reset() call in PacketAssemblerSet::remove_expired")
+    # edges that contradict "slot occupied and expired"
+    contra = lambda f: (f[0] == 'bool' and f[2] is True and is_call(strip(f[1]), '::is_free')) or \
+        (f[0] == 'rel' and f[1] in ('Ge', 'Gt') and any(l.endswith('.expires_at') for l in leafs(f[2])) and not any(l.endswith('.expires_at') for l in leafs(f[3])))
+    cut = set(guard_edges(F, b, contra))
+    ctx.need(cut, "tests of is_free() / expires_at in remove_expired")
+    seen = b.reachable(cut_edges=cut)
+    if any(s in seen for s in sites):
+        ctx.ok(('remove_expired', 'occupied+expired -> reset'), sample=dict(fn='remove_expired', resets='!is_free() && expires_at < now'))
+    else:
+        ctx.bad("remove_expired|occupied-slot-never-reset", "remove_expired never resets a slot that holds fragments and whose deadline passed: an abandoned partial datagram "
+                "keeps its slot for ever and its stale fragments are merged into a later datagram with the same key", body=b, bb=sites[0])
+
+
+def _novariant(n):
+    """canonical form that forgets which enum variant a payload projection went through (arms merged with `A | B`)"""
+    from .c07 import _canon_atom
+    n = _canon_atom(n)
+
+    def rec(x):
+        if not isinstance(x, tuple) or not x:
+            return x
+        if x[0] in ('proj', 'field') and len(x) >= 3:
+            path = tuple(('f', p[1]) if p and p[0] == 'f' else p for p in x[2] if p and p[0] not in ('dc', '*'))
+            return (x[0], rec(x[1]), path)
+        if x[0] == 'phi':
+            alts_ = sorted({rec(a) for a in x[1]}, key=repr)
+            return alts_[0] if len(alts_) == 1 else ('phi', tuple(alts_))
+        return tuple(rec(c) if isinstance(c, tuple) and c and isinstance(c[0], str) else
+                     (tuple(rec(d) for d in c) if isinstance(c, tuple) else c) for c in x)
+    return rec(n)
+
+
+def _same_expr(x, y):
+    x, y = _novariant(x), _novariant(y)
+    if x == y:
+        return True
+    lx, cx = lin(x)
+    ly, cy = lin(y)
+    if (lx or ly) and cx == cy and {_novariant(k): v for k, v in lx.items()} == {_novariant(k): v for k, v in ly.items()} \
+            and not (len(lx) == 1 and list(lx)[0] == x):
+        return True
+    if x[0] == 'call' and y[0] == 'call' and x[1] == y[1] and len(x[2]) == len(y[2]):
+        return all(_same_expr(a, b_) for a, b_ in zip(x[2], y[2]))
+    return False
+
+
+@rule('R06.12', ['C06', 'C10'], floor=5, clause='NDISC options: for every kind of option the length octet that emit stores, times 8, is the length buffer_len() declares (a length rounded down, or taken from another arm, desynchronises every option that follows)')
+def r06_12(ctx):
+    from .c07 import _expand_helpers
+    F = ctx.F
+    R = 'wire::ndiscoption::Repr'
+    em = ctx.method(R, 'emit')
+    bl_ = ctx.method(R, 'buffer_len')
+    variants = F.variants(R)
+    ctx.need(variants and len(variants) >= 5, "variants of ndiscoption::Repr")
+
+    def under(b, v):
+        cut = set(guard_edges(F, b, lambda f: (f[0] == 'is' and leafs(f[1]) == {'A:1'} and f[3] == R and f[2] != v) or
+                              (f[0] == 'isnot' and leafs(f[1]) == {'A:1'} and f[3] == R and v in f[2])))
+        return b.reachable(cut_edges=cut)
+    sdl = [x for x in em.calls() if (em.callee_name(x[1]) or '').endswith('::set_data_len')]
+    ctx.need(len(sdl) >= 5, "set_data_len calls in ndiscoption::Repr::emit")
+    for v in variants:
+        se, sb = under(em, v), under(bl_, v)
+        es = [simplify(_expand_helpers(F, F.origin.operand(em, x[2][1], x[0], len(em.blocks[x[0]]['s'])), '-')) for x in sdl if x[0] in se]
+        bs = []
+        for bi in sorted(sb):
+            for si, s in enumerate(bl_.blocks[bi]['s']):
+                if s[0] == 'a' and s[1] == [0, []]:
+                    bs.append(simplify(_expand_helpers(F, F.origin.rvalue(bl_, s[2], bi, si, 0, None), '-')))
+        if len(es) != 1 or len(bs) != 1:
+            ctx.bad(f"ndiscoption::Repr|{v}|length-sites", f"option kind {v}: expected one length store in emit and one answer in buffer_len (found {len(es)} / {len(bs)})", body=em)
+            continue
+        e, bq = strip(es[0]), strip(bs[0])
+        while e[0] == 'cast':
+            e = strip(e[1])
+        ce, cb = const_of(e), const_of(bq)
+        ok = False
+        if ce is not None and cb is not None:
+            ok = cb == 8 * ce
+        elif bq[0] == 'bin' and bq[1] == 'Mul' and const_of(bq[3]) == 8:
+            ok = _same_expr(bq[2], e)
+        elif bq[0] == 'bin' and bq[1] == 'Mul' and const_of(bq[2]) == 8:
+            ok = _same_expr(bq[3], e)
+        if ok:
+            ctx.ok((v, 'length*8 == buffer_len'), sample=dict(option=v, emit_length=show(e)[:60], buffer_len=show(bq)[:70]))
+        else:
+            ctx.bad(f"ndiscoption::Repr|{v}|length-octet", f"option kind {v}: emit stores length {show(e)[:70]} but buffer_len() declares {show(bq)[:70]} octets (not 8 x length): "
+                    "the option parses back shorter/longer than it was emitted and the options behind it are misread", body=em)
+
+
+@rule('R06.13', ['C06', 'C10', 'C20'], floor=2, clause='IEEE 802.15.4: the source PAN identifier is written by emit under the condition under which buffer_len() reserves its two octets (PAN-id compression off), and not otherwise')
+def r06_13(ctx):
+    F = ctx.F
+    R = 'wire::ieee802154::Repr'
+    em = ctx.method(R, 'emit')
+    bl_ = ctx.method(R, 'buffer_len')
+    comp = lambda truth: (lambda f: f[0] == 'bool' and f[2] is truth and is_field(f[1], R, 'pan_id_compression'))
+    # buffer_len: which truth value of the flag adds the two octets
+    adds = {}
+    for truth in (True, False):
+        cut = set(guard_edges(F, bl_, comp(not truth)))
+        ctx.need(cut, "test of pan_id_compression in ieee802154::Repr::buffer_len")
+        seen = bl_.reachable(cut_edges=cut)
+        vals = set()
+        for bi in seen:
+            for si, s in enumerate(bl_.blocks[bi]['s']):
+                if s[0] == 'a' and s[2][0] == 'use' and s[2][1][0] == 'k' and s[2][1][2] in (0, 2) and bl_.locals[s[1][0]]['ty'] == 'usize' and not bl_.locals[s[1][0]].get('name'):
+                    vals.add((s[1][0], s[2][1][2]))
+        adds[truth] = vals
+    only_false = {l for l, v in adds[False] if v == 2} - {l for l, v in adds[True] if v == 2}
+    ctx.need(only_false, "the two octets buffer_len() adds when pan_id_compression is false")
+    sites = [x[0] for x in em.calls() if (em.callee_name(x[1]) or '').endswith('::set_src_pan_id')]
+    ctx.need(sites, "set_src_pan_id call in ieee802154::Repr::emit")
+    r_off = em.reachable(cut_edges=set(guard_edges(F, em, comp(True))))
+    r_on = em.reachable(cut_edges=set(guard_edges(F, em, comp(False))))
+    ctx.need(guard_edges(F, em, comp(True)) or guard_edges(F, em, comp(False)), "test of pan_id_compression in ieee802154::Repr::emit")
+    if not any(s in r_off for s in sites):
+        ctx.bad("ieee802154::Repr::emit|src-pan-not-written", "with PAN-id compression off buffer_len() reserves two octets for the source PAN id but emit never writes them: "
+                "they keep the previous buffer content and the frame does not parse back to its representation", body=em, bb=sites[0])
+    else:
+        ctx.ok(('emit', 'src pan written when reserved'), sample=dict(fn='ieee802154::Repr::emit', writes='src_pan_id', when='!pan_id_compression'))
+    if any(s in r_on for s in sites):
+        ctx.bad("ieee802154::Repr::emit|src-pan-written-unreserved", "with PAN-id compression on buffer_len() reserves no room for the source PAN id but emit writes it: "
+                "the source address is overwritten / the write runs past the declared length", body=em, bb=sites[0])
+    else:
+        ctx.ok(('emit', 'src pan not written when compressed'), sample=dict(fn='ieee802154::Repr::emit', skips='src_pan_id', when='pan_id_compression'))
+
+
+@rule('R08.8', ['C08', 'C01', 'C09', 'C18'], floor=4, clause='a UDP or TCP header representation handed to a socket is the result of the checksum-verifying Repr::parse (directly or through the parameters of the ingress helpers), never one put together from unverified packet fields')
+def r08_8(ctx):
+    F = ctx.F
+    TR = {'wire::udp::Repr': 'wire::udp::Repr::parse', 'wire::tcp::Repr': 'wire::tcp::Repr'}
+    n = 0
+
+    def provenance(b, node, depth, seen):
+        """'parse' | 'built' | 'unknown' for a repr-valued origin"""
+        ls = leafs(node)
+        if any(l.startswith('C:wire::udp::Repr::parse') or (l.startswith('C:wire::tcp::Repr') and l.endswith('::parse')) for l in ls):
+            return 'parse', None
+        st = strip(node)
+        while st[0] in ('ref', 'deref', 'after') and len(st) >= 2:
+            st = strip(st[1])
+        if st[0] == 'arg' and depth < 4:
+            callers = [(ck, F.bodies[ck]) for ck in F.callers(b.key) if ck in F.bodies and '::test' not in ck and '/tests/' not in (F.bodies[ck].file or '')]
+            if not callers:
+                return 'unknown', None
+            for ck, cb in callers:
+                for x in cb.calls():
+                    if cb.callee_name(x[1]) == b.key and st[1] - 1 < len(x[2]):
+                        o = F.origin.operand(cb, x[2][st[1] - 1], x[0], len(cb.blocks[x[0]]['s']))
+                        r, w = provenance(cb, o, depth + 1, seen)
+                        if r != 'parse':
+                            return r, (w or (cb, x[0]))
+            return 'parse', None
+        if st[0] == 'agg':
+            return 'built', None
+        return 'unknown', None
+    for k, b in sorted(F.bodies.items()):
+        if not (b.file or '').startswith('src/iface/') or '::test' in k or '/tests/' in (b.file or ''):
+            continue
+        for x in b.calls():
+            nm = b.callee_name(x[1]) or ''
+            if not (nm.startswith('socket::') and nm.endswith('::process')):
+                continue
+            for a in x[2]:
+                if a[0] not in ('c', 'm'):
+                    continue
+                ty = b.locals[a[1][0]]['ty'].replace('&', '').replace("<'_>", '').strip()
+                if ty not in ('wire::udp::Repr', 'wire::tcp::Repr'):
+                    continue
+                n += 1
+                o = F.origin.operand(b, a, x[0], len(b.blocks[x[0]]['s']))
+                r, where = provenance(b, o, 0, set())
+                fnm = k.split('>::')[-1] if '>::' in k else k.rsplit('::', 1)[-1]
+                sock = nm.split('::')[1]
+                if r == 'parse':
+                    ctx.ok((fnm, sock, ty), sample=dict(fn=fnm, socket=sock, repr=ty, comes_from='Repr::parse (checksum verified with the device capabilities, R08.3)'))
+                else:
+                    wb, wbb = where if where else (b, x[0])
+                    ctx.bad(f"{fnm}|{sock}|repr-not-parsed", f"{fnm} hands the {sock} socket a {ty} that is {'assembled from packet fields' if r == 'built' else 'not the result of Repr::parse'}: "
+                            "the transport checksum of that packet was never verified", body=wb, bb=wbb)
+    ctx.need(n >= 4, f"transport representations handed to sockets (found {n})")
+
+
+@rule('R08.9', ['C08', 'C10'], floor=8, clause='the per-protocol checksum setting means what it says: rx() is true exactly for Both and Rx, tx() exactly for Both and Tx')
+def r08_9(ctx):
+    from .c07 import const_returns_under_variant
+    F = ctx.F
+    CKS = 'phy::Checksum'
+    vs = F.variants(CKS)
+    ctx.need(vs and set(vs) >= {'Both', 'Rx', 'Tx', 'None'}, "variants of phy::Checksum")
+    want = {'rx': {'Both', 'Rx'}, 'tx': {'Both', 'Tx'}}
+    for fn, yes in want.items():
+        b = ctx.method(CKS, fn)
+        for v in vs:
+            vals = const_returns_under_variant(F, b, v)
+            exp = v in yes
+            if vals is not None and {bool(x) for x in vals} == {exp}:
+                ctx.ok((fn, v), sample=dict(fn=f"Checksum::{fn}", setting=v, answer=exp))
+            else:
+                ctx.bad(f"Checksum::{fn}|{v}", f"Checksum::{fn}() answers {sorted(vals) if vals is not None else '?'} for the setting {v} (expected {exp}): "
+                        + ("received checksums are not verified under a setting that asks for it" if fn == 'rx' else "emitted checksums are not computed under a setting that asks for it"), body=b)
